@@ -29,3 +29,23 @@ Proof.
   exists ex_legacy_prop, two63. split; [unfold ex_legacy_prop; ex_ok|].
   vm_compute; reflexivity.
 Qed.
+
+From DV Require Import Proofs.LiveProofs Model.Scatter.
+Lemma ex_att_wf s t r : 0 <= s -> 0 <= t -> att_data_wf (ex_att s t r).
+Proof. intros Hs Ht. eexists. split; [reflexivity|]. cbn. repeat split; auto. Qed.
+
+Lemma C09_example_proof :
+  Forall op_wf [OAttest ex_cl (by_key 1) (ex_att 0 1 1) no_ofault; OAttest ex_cl (by_key 1) (ex_att 1 2 1) no_ofault] /\
+  cfg_wf (ex_cfg true) /\
+  fst (fst (sign_att (ex_cfg true)
+         (fst (run (ex_cfg true) empty_store
+                [OAttest ex_cl (by_key 1) (ex_att 0 1 1) no_ofault; OAttest ex_cl (by_key 1) (ex_att 1 2 1) no_ofault]))
+         ex_cl (by_name "Wallet 1/Account 0") (ex_att 2 3 1) no_ofault)) = CSucceeded /\
+  extents 10 3 = [(0, 4); (4, 4); (8, 2)]%nat.
+Proof.
+  split; [|split; [|split]].
+  - repeat constructor; apply ex_att_wf; lia.
+  - intros a Ha. cbn in Ha. destruct Ha as [<-|[<-|[<-|[]]]]; reflexivity.
+  - vm_compute. reflexivity.
+  - vm_compute. reflexivity.
+Qed.
